@@ -48,3 +48,128 @@ pub async fn yield_point(name: &'static str) {
 }
 
 pub use crate::fair_queue::verif_probe::{FairQueueProbe, ProbeHandle, Snapshot};
+
+pub mod codec {
+    //! Thin wrappers around the private frame codec (no logic of their own).
+    use crate::codec::{Message, ZmqCodec, ZmqCommand, ZmqGreeting};
+    use crate::{SocketType, ZmqMessage};
+
+    use asynchronous_codec::{Decoder, Encoder, FramedRead};
+    use bytes::{Bytes, BytesMut};
+    use futures::{AsyncRead, Stream, StreamExt};
+
+    use std::collections::HashMap;
+    use std::convert::TryFrom;
+
+    /// Mirror of the crate-private decoded item.
+    #[derive(Debug, Clone, PartialEq, Eq)]
+    pub enum Item {
+        Greeting {
+            version: (u8, u8),
+            mechanism: String,
+            as_server: bool,
+        },
+        Command {
+            name: String,
+            props: Vec<(String, Vec<u8>)>,
+        },
+        Message(Vec<Bytes>),
+    }
+
+    fn mirror(m: Message) -> Item {
+        match m {
+            Message::Greeting(g) => Item::Greeting {
+                version: g.version,
+                mechanism: g.mechanism.as_str().to_string(),
+                as_server: g.as_server,
+            },
+            Message::Command(c) => {
+                let mut props: Vec<(String, Vec<u8>)> = c
+                    .properties
+                    .iter()
+                    .map(|(k, v)| (k.clone(), v.to_vec()))
+                    .collect();
+                props.sort();
+                Item::Command {
+                    name: c.name.as_str().to_string(),
+                    props,
+                }
+            }
+            Message::Message(m) => Item::Message(m.into_vec()),
+        }
+    }
+
+    pub struct Codec(ZmqCodec);
+
+    impl Default for Codec {
+        fn default() -> Self {
+            Self::new()
+        }
+    }
+
+    impl Codec {
+        pub fn new() -> Self {
+            Self(ZmqCodec::new())
+        }
+
+        pub fn decode(&mut self, src: &mut BytesMut) -> Result<Option<Item>, String> {
+            match self.0.decode(src) {
+                Ok(x) => Ok(x.map(mirror)),
+                Err(e) => Err(e.to_string()),
+            }
+        }
+
+        pub fn decode_eof(&mut self, src: &mut BytesMut) -> Result<Option<Item>, String> {
+            match self.0.decode_eof(src) {
+                Ok(x) => Ok(x.map(mirror)),
+                Err(e) => Err(e.to_string()),
+            }
+        }
+
+        /// `Debug` rendering of the decoder (state, bytes waited for, partial message).
+        pub fn debug_state(&self) -> String {
+            format!("{:?}", self.0)
+        }
+
+        /// Encodes a message of one or more frames. Returns false for an empty frame list
+        /// (not constructible through the public API).
+        pub fn encode_message(&mut self, frames: Vec<Bytes>, dst: &mut BytesMut) -> bool {
+            match ZmqMessage::try_from(frames) {
+                Ok(m) => self.0.encode(Message::Message(m), dst).is_ok(),
+                Err(_) => false,
+            }
+        }
+
+        pub fn encode_greeting(&mut self, dst: &mut BytesMut) -> bool {
+            self.0
+                .encode(Message::Greeting(ZmqGreeting::default()), dst)
+                .is_ok()
+        }
+
+        pub fn encode_ready(
+            &mut self,
+            socket_type: SocketType,
+            identity: Option<Bytes>,
+            dst: &mut BytesMut,
+        ) -> bool {
+            let mut ready = ZmqCommand::ready(socket_type);
+            if let Some(id) = identity {
+                let mut props = HashMap::new();
+                props.insert("Identity".to_string(), id);
+                ready.add_properties(props);
+            }
+            self.0.encode(Message::Command(ready), dst).is_ok()
+        }
+    }
+
+    /// The library's real reader stack (`FramedRead` + frame codec) over a caller-supplied reader.
+    pub fn framed_read<R>(r: R) -> impl Stream<Item = Result<Item, String>> + Unpin + Send
+    where
+        R: AsyncRead + Unpin + Send + 'static,
+    {
+        FramedRead::new(r, ZmqCodec::new()).map(|x| match x {
+            Ok(m) => Ok(mirror(m)),
+            Err(e) => Err(e.to_string()),
+        })
+    }
+}
